@@ -2,8 +2,8 @@
    check_syntax settings) the number of equations / verbatim blocks build_model_definition emits is
        (number of DISTINCT names that some statement gives an equation)  +  (number of verbatim statements' symbols).
    All three kept findings are instances: two statements giving the same name an equation count once
-   (duplicate statements merge); a statement with two left-hand names counts twice; a statement whose only left-hand
-   name is overwritten by a FUNCTION symbol gives no name an equation.  Under the guards of ParseContribFacts the
+   (duplicate statements merge); a statement with two left-hand names counts twice; (a statement whose left-hand name is also
+   called as a function — formerly a third instance — is a SymbolError since fix b45daa1).  Under the guards of ParseContribFacts the
    right-hand side is the number of statements. *)
 From Coq Require Import String Ascii List Bool Arith ZArith Lia.
 Import ListNotations.
@@ -82,10 +82,6 @@ Proof.
         intros v Hv. destruct (dict_values_set_in _ _ _ _ Hv) as [->|Hv']; [exact (Tc Ts)|apply Hd, Hv']. }
     destruct (ttype t) eqn:Ety.
     all: try (apply COMB; unfold tidy, emits; cbn; repeat split; try reflexivity; discriminate).
-    + (* FUNCTION *)
-      destruct (mem_string (tname t) fs); [apply IH, Hd|]. apply IH.
-      intros v Hv. destruct (dict_values_set_in _ _ _ _ Hv) as [->|Hv']; [|apply Hd, Hv'].
-      unfold tidy, emits; cbn. repeat split; discriminate.
     + (* VERBATIM *) apply IH, Hd.
 Qed.
 
@@ -258,7 +254,6 @@ Proof.
     { intros sym Hs. destruct (dict_combine (tname t) sym d) as [dd|] eqn:Ec; [|discriminate]. apply IH. eapply dict_combine_ok; eauto. }
     destruct (ttype t) eqn:Ety.
     all: try (apply COMB; reflexivity).
-    + destruct (mem_string (tname t) fs); [apply IH, Hd|]. apply IH. apply dict_ok_set; [exact Hd|reflexivity].
     + apply IH, Hd.
 Qed.
 Lemma unnamed_values d : dict_ok d -> unnamed (dict_values d) = [].
